@@ -43,10 +43,15 @@ Pool == <<
   "(let [w (concat sl [%T]) u (conj sl %T) k (assoc sm :k %T)] (sleep 3) (trace! (list w u k sl sm)))",
   \* macro expansions that are NOT fresh lists: the macro's own rest list (it aliases the call form inside the shared
   \* function's body) and a template held in a shared global; expanded by several evaluations at once
-  "(trace! (shf %T)) (trace! (mtmpl)) (trace! (shf (mtmpl)))" >>
+  "(trace! (shf %T)) (trace! (mtmpl)) (trace! (shf (mtmpl)))",
+  \* a future held in a shared global, already finished, read by several evaluations at once
+  "(trace! (list @sfut %T @sfut)) (trace! (map (fn [i] (+ i @sfut)) [1 2 3 %T]))",
+  "(def many%T (concat (range 0 50) (range 0 50) (range 0 50))) (trace! (count (map (fn [i] @sfut) many%T))) " \o
+  "(trace! (reduce + %T (map (fn [i] @sfut) (range 0 50)))) (trace! (count (map (fn [i] (+ i @sfut)) many%T)))" >>
 SharedText == "(def sv [1 2 3]) (def sl '(10 20 30)) (def sm {:a 1 :b 2}) (def sr (rest [0 1 2 3 4 5])) " \o
               "(defmacro mrest (fn [& xs] xs)) (def shf (fn [a] (mrest + a (mrest + 1 0)))) " \o
-              "(def tmpl (list '+ 1 (list '+ 2 3))) (defmacro mtmpl (fn [] tmpl))"
+              "(def tmpl (list '+ 1 (list '+ 2 3))) (defmacro mtmpl (fn [] tmpl)) " \o
+              "(def sfut (future (reduce + 0 [1 2 3]))) (def sfutv @sfut)"
 NP == Len(Pool)
 
 RECURSIVE SubstT(_, _, _)
